@@ -145,3 +145,36 @@ impl MultiSpace {
         )
     }
 }
+
+/// A reader that hands out at most `chunk` bytes per `read` call (the "short read" answers of the environment) and,
+/// when `fail_at` is set, reports an I/O error once that many bytes have been delivered.
+pub struct ChunkReader<'a> {
+    pub data: &'a [u8],
+    pub pos: usize,
+    pub chunk: usize,
+    pub fail_at: Option<usize>,
+}
+impl<'a> ChunkReader<'a> {
+    pub fn new(data: &'a [u8], chunk: usize) -> Self {
+        ChunkReader { data, pos: 0, chunk: chunk.max(1), fail_at: None }
+    }
+    pub fn failing(data: &'a [u8], chunk: usize, fail_at: usize) -> Self {
+        ChunkReader { data, pos: 0, chunk: chunk.max(1), fail_at: Some(fail_at) }
+    }
+}
+impl<'a> std::io::Read for ChunkReader<'a> {
+    fn read(&mut self, buf: &mut [u8]) -> std::io::Result<usize> {
+        if let Some(f) = self.fail_at {
+            if self.pos >= f {
+                return Err(std::io::Error::new(std::io::ErrorKind::Other, "injected read error"));
+            }
+        }
+        let mut n = self.chunk.min(buf.len()).min(self.data.len() - self.pos);
+        if let Some(f) = self.fail_at {
+            n = n.min(f - self.pos);
+        }
+        buf[..n].copy_from_slice(&self.data[self.pos..self.pos + n]);
+        self.pos += n;
+        Ok(n)
+    }
+}
